@@ -93,7 +93,7 @@ def run_selftest(prop: str, rep) -> int:
                 jobs.append(("patch", f"unfix-{commit}", VERIF / "selftest" / "reverse_fixes" / f"{commit}.diff", True))
         src = repo_root() / "src"
         modules = {}
-        for pat in mutants.ANCHORS.get(prop, []):
+        for pat in mutants.ANCHORS.get(prop, []) + mutants.NEUTRAL_EXTRA.get(prop, []):
             parts = pat.split(".")
             for k in range(len(parts), 1, -1):
                 cand = src / Path(*parts[:k])
